@@ -267,7 +267,11 @@ func CheckC09(p *Pkg, e *Env, r *res.Result) {
 		// oracle B: wire validity under the reference request validator
 		if !useReal && captured != nil {
 			if msg := validateWire(p, op, captured, capturedBody, va); msg != "" {
-				fail("invalid-wire:"+firstWordsN(msg, 3), msg)
+				kind := "invalid-wire:" + firstWordsN(msg, 3)
+				if b := params.FieldByName("Body"); b.IsValid() && strings.TrimSpace(string(capturedBody)) == "null" && (b.Kind() == reflect.Slice || b.Kind() == reflect.Map) && b.IsNil() {
+					kind = "invalid-wire:nil-body-encoded-as-null"
+				}
+				fail(kind, msg)
 				return
 			}
 		}
